@@ -79,14 +79,22 @@ def concrete_relation(model, variants):
 
 def make_equiv(spec):
     import tatsu
-    gtext = spec['gtext']
+    gtext = spec.get('gtext')
     which = spec['variants']
-    model = tatsu.compile(gtext, name=spec.get('name', 'VT'))
+    if 'antlr' in spec:       # a model translated from an ANTLR grammar
+        from tatsu import g2e
+        model = g2e.translate(text=spec['antlr'], name=spec.get('name', 'VT'))
+    else:
+        model = tatsu.compile(gtext, name=spec.get('name', 'VT'))
     base = ModelEngine(model, spec.get('settings'))
     vs = variants_of(model, gtext, which)
     engines = {w: ModelEngine(v, spec.get('settings')) for w, v in vs.items() if not isinstance(v, tuple)}
     broken = {w: v[1] for w, v in vs.items() if isinstance(v, tuple)}
     n = spec['n']
+    # {variant: finding id}: a variant whose disagreement is a listed known finding for this grammar (e.g. the JSON reload of a grammar that holds a
+    # constant starting with 'f{': F6)
+    from .known import tolerated
+    tol = {w: f for w, f in (spec.get('known') or {}).items() if f in tolerated(spec.get('prop', ''))}
 
     def guarded(e, t):
         try:
@@ -104,12 +112,21 @@ def make_equiv(spec):
         if real[0] not in ('ok', 'fail'):
             return False, 'base-' + real[0], real[1:]
         ast = norm(real[1]) if real[0] == 'ok' else None
+        known_hit = None
         for w, e in engines.items():
             other = guarded(e, t)
             if other[0] != real[0]:
+                if w in tol:
+                    known_hit = tol[w]
+                    continue
                 return False, f'{w}-outcome', [real[0], other[0], other[1] if other[0] == 'exception' else None]
             if real[0] == 'ok' and (not (norm(other[1]) == ast) or other[2] != real[2]):
+                if w in tol:
+                    known_hit = tol[w]
+                    continue
                 return False, f'{w}-ast', [skel(ast), skel(norm(other[1]))]
+        if known_hit:
+            return True, 'known:' + known_hit, None
         if real[0] == 'fail':
             return True, ('fail' if real[1] > 0 else 'triv:fail0'), [real[1]]
         return True, 'ok', [real[2], skel(ast)]
